@@ -301,8 +301,10 @@ def run_check(cfg, tier, seed, replay=None):
             m = re.search(r'File "([^"]+)", line (\d+)', out)
             violations.append(("unproved", {"what": "proof obligation no longer checks", "coq_error": out[-3000:], "file": m.group(1) if m else None}))
         else:
-            with Lock("coq"):
-                rc, pout = coqc_file(props_v)
+            # compile Properties.v to a private .vo: no lock needed, and the
+            # Print Assumptions output of THIS run is what gets parsed
+            rc, pout = sh("timeout 1800 coqc -Q %s V -o %s %s" % (COQ, os.path.join(rundir, "Properties.vo"), props_v),
+                          cwd=os.path.dirname(props_v), timeout=1900)
             if rc != 0:
                 violations.append(("unproved", {"what": "Properties.v no longer checks", "coq_error": pout[-3000:]}))
             else:
@@ -354,8 +356,7 @@ def run_check(cfg, tier, seed, replay=None):
                         for fl in stt["failures"]:
                             violations.append(("input", {"what": fl["what"], "family": stt["family"], "seed": sd, "n": n, "failure": fl}))
                     for cv in sorted(glob.glob(os.path.join(od, "*_cases.v"))):
-                        with Lock("coqrun"):
-                            rc, cout = coqc_file(cv)
+                        rc, cout = coqc_file(cv)
                         if rc != 0:
                             violations.append(("unproved", {"what": "model could not evaluate the cases file", "file": cv, "coq_error": cout[-3000:]}))
                             continue
